@@ -561,7 +561,7 @@ func (s *persistentHybridSearch) Execute() ([]HybridSearchResult, error) {
 					s.storage.config.MetadataIndexTemplate,
 				)
 				if err != nil {
-					verifPoint("search:segment:end")
+					verifPoint("search:segment:loadfail")
 					// Log error but continue with other segments
 					return
 				}
@@ -597,7 +597,7 @@ func (s *persistentHybridSearch) Execute() ([]HybridSearchResult, error) {
 
 				results, err := search.Execute()
 				if err != nil {
-					verifPoint("search:segment:end")
+					verifPoint("search:segment:searchfail")
 					return
 				}
 
